@@ -16,19 +16,21 @@ pub mod h0x {
       relation r5(i64, i64, i64);
       relation r6(i64);
       relation r7(i64);
-      r6((v0.clone() + 1)) <-- r3(v0, v108, v109) if (v108.clone() == v0.clone()) if (v109.clone() == 2), r1(v1, v100), r6(v110) if (v110.clone() == 0), r0(v103, v111) if (v111.clone() == v0.clone()), r1(v112, v104) if (v112.clone() == v0.clone()), r6(v113) if (v113.clone() == 0), r0(v107, v114) if (v114.clone() == v0.clone()), if (v0.clone() < 5);
-      r6((v0.clone() + 1)) <-- r3(v0, v115, v116) if (v115.clone() == v0.clone()) if (v116.clone() == 2), r1(v1, v100), r6(v117) if (v117.clone() == 0), r0(v103, v118) if (v118.clone() == v0.clone()), r1(v119, v104) if (v119.clone() == v0.clone()), r4(v105, v120) if let Some(v106) = v120.clone(), r0(v107, v121) if (v121.clone() == v0.clone()), if (v0.clone() < 5);
-      r6((v0.clone() + 1)) <-- r3(v0, v122, v123) if (v122.clone() == v0.clone()) if (v123.clone() == 2), r1(v1, v100), r4(v101, v124) if let Some(v102) = v124.clone(), r0(v103, v125) if (v125.clone() == v0.clone()), r1(v126, v104) if (v126.clone() == v0.clone()), r6(v127) if (v127.clone() == 0), r0(v107, v128) if (v128.clone() == v0.clone()), if (v0.clone() < 5);
-      r6((v0.clone() + 1)) <-- r3(v0, v129, v130) if (v129.clone() == v0.clone()) if (v130.clone() == 2), r1(v1, v100), r4(v101, v131) if let Some(v102) = v131.clone(), r0(v103, v132) if (v132.clone() == v0.clone()), r1(v133, v104) if (v133.clone() == v0.clone()), r4(v105, v134) if let Some(v106) = v134.clone(), r0(v107, v135) if (v135.clone() == v0.clone()), if (v0.clone() < 5);
-      r6(0) <-- r5(v0, v1, v148) if (v1.clone() == 1), r4(v149, v136) if (v149.clone() == v0.clone()), if (v1.clone() <= 3), r4(v150, v151) if (v150.clone() == 0) if (v151.clone() == Some((v1.clone() + v1.clone()))), for v138 in [1, 3], r4(v142, v152) if let Some(v143) = v152.clone(), r1(v153, v144) if (v153.clone() == v1.clone()), r6(v154) if (v154.clone() == 0), r0(v147, v155) if (v155.clone() == v142.clone()), if (v142.clone() == 1);
-      r6(0) <-- r5(v0, v1, v156) if (v1.clone() == 1), r4(v157, v136) if (v157.clone() == v0.clone()), if (v1.clone() <= 3), r4(v158, v159) if (v158.clone() == 0) if (v159.clone() == Some((v1.clone() + v1.clone()))), for v138 in [1, 3], r4(v142, v160) if let Some(v143) = v160.clone(), r1(v161, v144) if (v161.clone() == v1.clone()), r4(v145, v162) if let Some(v146) = v162.clone(), r0(v147, v163) if (v163.clone() == v142.clone()), if (v142.clone() == 1);
-      r6(0) <-- r5(v0, v1, v164) if (v1.clone() == 1), r1(v165, v136) if (v165.clone() == v0.clone()), if ((v1.clone() + v1.clone()) != v0.clone()), let v137 = std::cmp::min(((v1.clone() + v1.clone()) + v1.clone()), 6), for v138 in [1, 3], r4(v142, v166) if let Some(v143) = v166.clone(), r1(v167, v144) if (v167.clone() == v1.clone()), r6(v168) if (v168.clone() == 0), r0(v147, v169) if (v169.clone() == v142.clone()), if (v142.clone() == 1);
-      r6(0) <-- r5(v0, v1, v170) if (v1.clone() == 1), r1(v171, v136) if (v171.clone() == v0.clone()), if ((v1.clone() + v1.clone()) != v0.clone()), let v137 = std::cmp::min(((v1.clone() + v1.clone()) + v1.clone()), 6), for v138 in [1, 3], r4(v142, v172) if let Some(v143) = v172.clone(), r1(v173, v144) if (v173.clone() == v1.clone()), r4(v145, v174) if let Some(v146) = v174.clone(), r0(v147, v175) if (v175.clone() == v142.clone()), if (v142.clone() == 1);
-      r6(0) <-- r5(v0, v1, v176) if (v1.clone() == 1), r6(v177) if (v177.clone() == v0.clone()), r4(v142, v178) if let Some(v143) = v178.clone(), r1(v179, v144) if (v179.clone() == v1.clone()), r6(v180) if (v180.clone() == 0), r0(v147, v181) if (v181.clone() == v142.clone()), if (v142.clone() == 1);
-      r6(0) <-- r5(v0, v1, v182) if (v1.clone() == 1), r6(v183) if (v183.clone() == v0.clone()), r4(v142, v184) if let Some(v143) = v184.clone(), r1(v185, v144) if (v185.clone() == v1.clone()), r4(v145, v186) if let Some(v146) = v186.clone(), r0(v147, v187) if (v187.clone() == v142.clone()), if (v142.clone() == 1);
-      r6(0) <-- r5(v0, v1, v188) if (v1.clone() == 1), r5(v139, v140, v189) if (v189.clone() == v0.clone()), r2(v141), r4(v142, v190) if let Some(v143) = v190.clone(), r1(v191, v144) if (v191.clone() == v1.clone()), r6(v192) if (v192.clone() == 0), r0(v147, v193) if (v193.clone() == v142.clone()), if (v142.clone() == 1);
-      r6(0) <-- r5(v0, v1, v194) if (v1.clone() == 1), r5(v139, v140, v195) if (v195.clone() == v0.clone()), r2(v141), r4(v142, v196) if let Some(v143) = v196.clone(), r1(v197, v144) if (v197.clone() == v1.clone()), r4(v145, v198) if let Some(v146) = v198.clone(), r0(v147, v199) if (v199.clone() == v142.clone()), if (v142.clone() == 1);
-      r4(v0, v1) <-- r1(v0, v1);
+      r5(v2, v2, v1) <-- r7(v0), r1(v1, v100), r6(v108) if (v108.clone() == 0), r0(v103, v109) if (v109.clone() == v0.clone()), r1(v2, v104), r6(v110) if (v110.clone() == 0), r0(v107, v111) if (v111.clone() == v1.clone());
+      r5(v2, v2, v1) <-- r7(v0), r1(v1, v100), r6(v112) if (v112.clone() == 0), r0(v103, v113) if (v113.clone() == v0.clone()), r1(v2, v104), r4(v105, v114) if let Some(v106) = v114.clone(), r0(v107, v115) if (v115.clone() == v1.clone());
+      r5(v2, v2, v1) <-- r7(v0), r1(v1, v100), r4(v101, v116) if let Some(v102) = v116.clone(), r0(v103, v117) if (v117.clone() == v0.clone()), r1(v2, v104), r6(v118) if (v118.clone() == 0), r0(v107, v119) if (v119.clone() == v1.clone());
+      r5(v2, v2, v1) <-- r7(v0), r1(v1, v100), r4(v101, v120) if let Some(v102) = v120.clone(), r0(v103, v121) if (v121.clone() == v0.clone()), r1(v2, v104), r4(v105, v122) if let Some(v106) = v122.clone(), r0(v107, v123) if (v123.clone() == v1.clone());
+      r5(2, v0, v2) <-- r5(v0, v128, v129) if (v128.clone() == std::cmp::min(v0.clone(), 2)) if (v129.clone() == std::cmp::max(v0.clone(), 2)) if (v0.clone() <= 2), r1(v1, v124), r6(v130) if (v130.clone() == 0), r0(v127, v131) if (v131.clone() == v0.clone()), r0(v2, v132) if (v132.clone() == 1);
+      r5(2, v0, v2) <-- r5(v0, v133, v134) if (v133.clone() == std::cmp::min(v0.clone(), 2)) if (v134.clone() == std::cmp::max(v0.clone(), 2)) if (v0.clone() <= 2), r1(v1, v124), r4(v125, v135) if let Some(v126) = v135.clone(), r0(v127, v136) if (v136.clone() == v0.clone()), r0(v2, v137) if (v137.clone() == 1);
+      r7(v0) <-- r5(v0, v150, v1) if (v150.clone() == std::cmp::min(v0.clone(), 4)), r4(v151, v138) if (v151.clone() == v1.clone()), if (v0.clone() <= 3), r4(v152, v153) if (v152.clone() == 0) if (v153.clone() == Some((v1.clone() + v1.clone()))), for v140 in [1, 3], r4(v144, v154) if let Some(v145) = v154.clone(), r1(v155, v146) if (v155.clone() == v0.clone()), r6(v156) if (v156.clone() == 0), r0(v149, v157) if (v157.clone() == v144.clone()), if (v144.clone() == 1), r5(v158, v159, v2) if (v159.clone() == (v0.clone() + 2));
+      r7(v0) <-- r5(v0, v160, v1) if (v160.clone() == std::cmp::min(v0.clone(), 4)), r4(v161, v138) if (v161.clone() == v1.clone()), if (v0.clone() <= 3), r4(v162, v163) if (v162.clone() == 0) if (v163.clone() == Some((v1.clone() + v1.clone()))), for v140 in [1, 3], r4(v144, v164) if let Some(v145) = v164.clone(), r1(v165, v146) if (v165.clone() == v0.clone()), r4(v147, v166) if let Some(v148) = v166.clone(), r0(v149, v167) if (v167.clone() == v144.clone()), if (v144.clone() == 1), r5(v168, v169, v2) if (v169.clone() == (v0.clone() + 2));
+      r7(v0) <-- r5(v0, v170, v1) if (v170.clone() == std::cmp::min(v0.clone(), 4)), r1(v171, v138) if (v171.clone() == v1.clone()), if ((v1.clone() + v1.clone()) != v1.clone()), let v139 = std::cmp::min(((v1.clone() + v1.clone()) + v0.clone()), 6), for v140 in [1, 3], r4(v144, v172) if let Some(v145) = v172.clone(), r1(v173, v146) if (v173.clone() == v0.clone()), r6(v174) if (v174.clone() == 0), r0(v149, v175) if (v175.clone() == v144.clone()), if (v144.clone() == 1), r5(v176, v177, v2) if (v177.clone() == (v0.clone() + 2));
+      r7(v0) <-- r5(v0, v178, v1) if (v178.clone() == std::cmp::min(v0.clone(), 4)), r1(v179, v138) if (v179.clone() == v1.clone()), if ((v1.clone() + v1.clone()) != v1.clone()), let v139 = std::cmp::min(((v1.clone() + v1.clone()) + v0.clone()), 6), for v140 in [1, 3], r4(v144, v180) if let Some(v145) = v180.clone(), r1(v181, v146) if (v181.clone() == v0.clone()), r4(v147, v182) if let Some(v148) = v182.clone(), r0(v149, v183) if (v183.clone() == v144.clone()), if (v144.clone() == 1), r5(v184, v185, v2) if (v185.clone() == (v0.clone() + 2));
+      r7(v0) <-- r5(v0, v186, v1) if (v186.clone() == std::cmp::min(v0.clone(), 4)), r6(v187) if (v187.clone() == v1.clone()), r4(v144, v188) if let Some(v145) = v188.clone(), r1(v189, v146) if (v189.clone() == v0.clone()), r6(v190) if (v190.clone() == 0), r0(v149, v191) if (v191.clone() == v144.clone()), if (v144.clone() == 1), r5(v192, v193, v2) if (v193.clone() == (v0.clone() + 2));
+      r7(v0) <-- r5(v0, v194, v1) if (v194.clone() == std::cmp::min(v0.clone(), 4)), r6(v195) if (v195.clone() == v1.clone()), r4(v144, v196) if let Some(v145) = v196.clone(), r1(v197, v146) if (v197.clone() == v0.clone()), r4(v147, v198) if let Some(v148) = v198.clone(), r0(v149, v199) if (v199.clone() == v144.clone()), if (v144.clone() == 1), r5(v200, v201, v2) if (v201.clone() == (v0.clone() + 2));
+      r7(v0) <-- r5(v0, v202, v1) if (v202.clone() == std::cmp::min(v0.clone(), 4)), r5(v141, v142, v203) if (v203.clone() == v1.clone()), r2(v143), r4(v144, v204) if let Some(v145) = v204.clone(), r1(v205, v146) if (v205.clone() == v0.clone()), r6(v206) if (v206.clone() == 0), r0(v149, v207) if (v207.clone() == v144.clone()), if (v144.clone() == 1), r5(v208, v209, v2) if (v209.clone() == (v0.clone() + 2));
+      r7(v0) <-- r5(v0, v210, v1) if (v210.clone() == std::cmp::min(v0.clone(), 4)), r5(v141, v142, v211) if (v211.clone() == v1.clone()), r2(v143), r4(v144, v212) if let Some(v145) = v212.clone(), r1(v213, v146) if (v213.clone() == v0.clone()), r4(v147, v214) if let Some(v148) = v214.clone(), r0(v149, v215) if (v215.clone() == v144.clone()), if (v144.clone() == 1), r5(v216, v217, v2) if (v217.clone() == (v0.clone() + 2));
+      r4(0, Some(v0.clone())) <-- r2(v0) if (v0.clone() == 4);
    }
    pub struct Inst { p: Prog, pool: Option<ascent::rayon::ThreadPool> }
    pub fn make(pool: Option<usize>) -> Box<dyn Driver> {
@@ -76,23 +78,17 @@ pub mod h4x {
       relation r6(i64, Option<i64>);
       relation r7(i64);
       relation r8(i64, i64);
-      r6((v1.clone() + 1), None::<i64>) <-- r5(v0), r6(v1, v102) if let Some(v100) = v102.clone(), r5(v101), if (v1.clone() < 5);
-      r6((v1.clone() + 1), None::<i64>) <-- r5(v0), r8(v100, v1), agg () = not() in r0(std::cmp::min(v100.clone(), 2), v100.clone()), r5(v101), if (v1.clone() < 5);
-      r6((v1.clone() + 1), None::<i64>) <-- r5(v0), r8(v103, v1) if (v103.clone() == v0.clone()), if (v1.clone() < 5);
-      r7(v1) <-- r1(v105, v0), r4(v2, v1), r6(v104, v106) if (v106.clone() == Some(v2.clone()));
-      r8(std::cmp::min(std::cmp::max(v0.clone(), 3), 6), std::cmp::min(std::cmp::max(v0.clone(), 3), 6)) <-- r7(v0), r4(v1, v108) if (v108.clone() == v0.clone()), r6(v107, v109) if (v109.clone() == Some(v1.clone()));
-      r8(0, 3) <-- r7(v0), r4(v1, v108) if (v108.clone() == v0.clone()), r6(v107, v109) if (v109.clone() == Some(v1.clone()));
-      r8(v0, v0) <-- r7(v0), r4(v1, v108) if (v108.clone() == v0.clone()), r6(v107, v109) if (v109.clone() == Some(v1.clone()));
-      r8(std::cmp::min(std::cmp::max(v0.clone(), 1), 6), std::cmp::min(std::cmp::max(v0.clone(), 1), 6)) <-- r6(v0, v112) if let Some(v110) = v112.clone(), r5(v111), if (v0.clone() < 5);
-      r8(0, 3) <-- r6(v0, v112) if let Some(v110) = v112.clone(), r5(v111), if (v0.clone() < 5);
-      r6((v0.clone() + 1), Some(3)) <-- r6(v0, v112) if let Some(v110) = v112.clone(), r5(v111), if (v0.clone() < 5);
-      r8(std::cmp::min(std::cmp::max(v0.clone(), 1), 6), std::cmp::min(std::cmp::max(v0.clone(), 1), 6)) <-- r8(v110, v0), agg () = not() in r0(std::cmp::min(v110.clone(), 2), v110.clone()), r5(v111), if (v0.clone() < 5);
-      r8(0, 3) <-- r8(v110, v0), agg () = not() in r0(std::cmp::min(v110.clone(), 2), v110.clone()), r5(v111), if (v0.clone() < 5);
-      r6((v0.clone() + 1), Some(3)) <-- r8(v110, v0), agg () = not() in r0(std::cmp::min(v110.clone(), 2), v110.clone()), r5(v111), if (v0.clone() < 5);
-      r8(std::cmp::min((v3.clone() + v4.clone()), 6), std::cmp::min((v3.clone() + v4.clone()), 6)) <-- r4(v0, v1), r4(v3, v2), r6(v113, v115) if (v115.clone() == Some(v3.clone())), r4(v4, v116) if (v116.clone() == v3.clone()), r6(v114, v117) if (v117.clone() == Some(v4.clone()));
-      r8(0, 3) <-- r4(v0, v1), r4(v3, v2), r6(v113, v115) if (v115.clone() == Some(v3.clone())), r4(v4, v116) if (v116.clone() == v3.clone()), r6(v114, v117) if (v117.clone() == Some(v4.clone()));
-      r7(3) <-- r4(v0, v1), r4(v3, v2), r6(v113, v115) if (v115.clone() == Some(v3.clone())), r4(v4, v116) if (v116.clone() == v3.clone()), r6(v114, v117) if (v117.clone() == Some(v4.clone()));
-      r5((v0.clone() + 1)) <-- r4(v0, v118) if (v118.clone() == (v0.clone() + 2)) if (v0.clone() == 5), if (v0.clone() < 5);
+      r8(std::cmp::min((v1.clone() + 2), 6), std::cmp::min((v1.clone() + 2), 6)) <-- r3(v101, v102, v0) if (v101.clone() == 0), r4(v2, v1), r6(v100, v103) if (v103.clone() == Some(v2.clone()));
+      r8(0, 3) <-- r3(v101, v102, v0) if (v101.clone() == 0), r4(v2, v1), r6(v100, v103) if (v103.clone() == Some(v2.clone()));
+      r8(v0, v0) <-- r3(v101, v102, v0) if (v101.clone() == 0), r4(v2, v1), r6(v100, v103) if (v103.clone() == Some(v2.clone()));
+      r8(std::cmp::min((v0.clone() + 1), 6), std::cmp::min((v0.clone() + 1), 6)) <-- r7(v0) if (v0.clone() <= 2), r2(v1), if (v1.clone() != v1.clone()), r2(v2), if (v2.clone() != v2.clone());
+      r8(0, 3) <-- r7(v0) if (v0.clone() <= 2), r2(v1), if (v1.clone() != v1.clone()), r2(v2), if (v2.clone() != v2.clone());
+      r8(std::cmp::min((v2.clone() + v1.clone()), 6), std::cmp::min((v2.clone() + v1.clone()), 6)) <-- r5(v0), r4(v2, v1), r6(v104, v106) if (v106.clone() == Some(v2.clone())), r4(v107, v108) if (v107.clone() == v2.clone()) if (v108.clone() == v1.clone()), r6(v105, v109) if (v109.clone() == Some(v2.clone()));
+      r8(0, 3) <-- r5(v0), r4(v2, v1), r6(v104, v106) if (v106.clone() == Some(v2.clone())), r4(v107, v108) if (v107.clone() == v2.clone()) if (v108.clone() == v1.clone()), r6(v105, v109) if (v109.clone() == Some(v2.clone()));
+      r8(v0, v1) <-- r5(v0), r4(v2, v1), r6(v104, v106) if (v106.clone() == Some(v2.clone())), r4(v107, v108) if (v107.clone() == v2.clone()) if (v108.clone() == v1.clone()), r6(v105, v109) if (v109.clone() == Some(v2.clone()));
+      r7(v0) <-- r8(v0, v112) if (v112.clone() == 3), r4(v3, v1), r6(v110, v113) if (v113.clone() == Some(v3.clone())), r4(v4, v114) if (v114.clone() == v1.clone()), r6(v111, v115) if (v115.clone() == Some(v4.clone()));
+      r7(v0) <-- r8(v0, v116) if (v116.clone() == 3), r8(v1, v117) if (v117.clone() == v1.clone()) if (v1.clone() == v1.clone()), r4(v4, v118) if (v118.clone() == v1.clone()), r6(v111, v119) if (v119.clone() == Some(v4.clone()));
+      r5((v0.clone() + 1)) <-- r4(v0, v120) if (v120.clone() == (v0.clone() + 2)) if (v0.clone() == 5), if (v0.clone() < 5);
       r8(3, 3);
       r8(0, 3);
    }
@@ -138,44 +134,21 @@ pub mod h8x {
       relation r1(i64, Option<i64>);
       relation r2(i64);
       relation r3(i64, i64, i64);
-      relation r4(i64);
-      relation r5(i64, Option<i64>, i64);
+      relation r4(i64, i64);
+      relation r5(i64);
       relation r6(i64, i64);
-      relation r7(i64, Option<i64>);
-      r7(1, v1) <-- r7(v0, v1) if (v0.clone() <= 5) let v2 = std::cmp::min((v0.clone() + 0), 6), r0(v100, v101) if (v100.clone() == v0.clone()) if (v101.clone() == std::cmp::min(v0.clone(), 3)), agg () = not() in r1(v0.clone(), Some(std::cmp::min(v0.clone(), 3)));
-      r6(std::cmp::min(std::cmp::min(v2.clone(), 3), 6), std::cmp::min(std::cmp::min(v2.clone(), 3), 6)) <-- r0(v0, v1), r3(v102, v106, v107) if (v106.clone() == v0.clone()) if (v107.clone() == v0.clone()), r3(v103, v108, v109) if (v108.clone() == v0.clone()) if (v109.clone() == v102.clone()), if (v102.clone() == 0), r3(v104, v110, v2) if (v110.clone() == v0.clone()), r3(v105, v111, v112) if (v111.clone() == v0.clone()) if (v112.clone() == v104.clone()), if (v104.clone() == 0);
-      r7(v2, Some(v1.clone())) <-- r0(v0, v1), r3(v102, v106, v107) if (v106.clone() == v0.clone()) if (v107.clone() == v0.clone()), r3(v103, v108, v109) if (v108.clone() == v0.clone()) if (v109.clone() == v102.clone()), if (v102.clone() == 0), r3(v104, v110, v2) if (v110.clone() == v0.clone()), r3(v105, v111, v112) if (v111.clone() == v0.clone()) if (v112.clone() == v104.clone()), if (v104.clone() == 0);
-      r5(v0, Some(std::cmp::min(std::cmp::max(v1.clone(), 1), 6)), 0) <-- r0(v0, v115) if (v115.clone() == std::cmp::min(v0.clone(), 3)) if (v0.clone() <= 3), r3(v113, v1, v116) if (v116.clone() == v0.clone()), r3(v114, v117, v118) if (v117.clone() == v1.clone()) if (v118.clone() == v113.clone()), if (v113.clone() == 0);
-      r5(std::cmp::min(std::cmp::max(v1.clone(), 1), 6), Some(1), 2) <-- r0(v0, v115) if (v115.clone() == std::cmp::min(v0.clone(), 3)) if (v0.clone() <= 3), r3(v113, v1, v116) if (v116.clone() == v0.clone()), r3(v114, v117, v118) if (v117.clone() == v1.clone()) if (v118.clone() == v113.clone()), if (v113.clone() == 0);
-      r6((std::cmp::min(std::cmp::max(v1.clone(), 1), 6) + 0), (std::cmp::min(std::cmp::max(v1.clone(), 1), 6) + 0)) <-- r0(v0, v115) if (v115.clone() == std::cmp::min(v0.clone(), 3)) if (v0.clone() <= 3), r3(v113, v1, v116) if (v116.clone() == v0.clone()), r3(v114, v117, v118) if (v117.clone() == v1.clone()) if (v118.clone() == v113.clone()), if (v113.clone() == 0);
-      r7(v0, Some(3)) <-- r6(v0, v121) if (v121.clone() == v0.clone()) if (v0.clone() != 5), r3(v119, v1, v3), r3(v120, v122, v123) if (v122.clone() == v1.clone()) if (v123.clone() == v119.clone()), if (v119.clone() == 0);
-      r7(v0, Some(3)) <-- r6(v0, v124) if (v124.clone() == v0.clone()) if (v0.clone() != 5), r1(v1, v4);
-      r6(std::cmp::min(std::cmp::min(v2.clone(), 3), 6), std::cmp::min(std::cmp::min(v2.clone(), 3), 6)) <-- r1(v131, v132) if (v131.clone() == 2) if let Some(v0) = v132.clone(), r5(v125, v133, v1), if (v1.clone() != 5), let v126 = std::cmp::min(std::cmp::max(v125.clone(), 2), 6), agg () = not() in r1(std::cmp::max(v126.clone(), 0), Some(std::cmp::min(v0.clone(), 2))), r5(v128, v134, v2), if (v2.clone() != 5), let v129 = std::cmp::min(std::cmp::max(v128.clone(), 2), 6), agg () = not() in r1(std::cmp::max(v129.clone(), 0), Some((v0.clone() + v0.clone()))), if (v1.clone() < 5);
-      r5((v1.clone() + 1), Some(0), 2) <-- r1(v131, v132) if (v131.clone() == 2) if let Some(v0) = v132.clone(), r5(v125, v133, v1), if (v1.clone() != 5), let v126 = std::cmp::min(std::cmp::max(v125.clone(), 2), 6), agg () = not() in r1(std::cmp::max(v126.clone(), 0), Some(std::cmp::min(v0.clone(), 2))), r5(v128, v134, v2), if (v2.clone() != 5), let v129 = std::cmp::min(std::cmp::max(v128.clone(), 2), 6), agg () = not() in r1(std::cmp::max(v129.clone(), 0), Some((v0.clone() + v0.clone()))), if (v1.clone() < 5);
-      r6(std::cmp::min(std::cmp::min(v2.clone(), 3), 6), std::cmp::min(std::cmp::min(v2.clone(), 3), 6)) <-- r1(v135, v136) if (v135.clone() == 2) if let Some(v0) = v136.clone(), r5(v125, v137, v1), if (v1.clone() != 5), let v126 = std::cmp::min(std::cmp::max(v125.clone(), 2), 6), agg () = not() in r1(std::cmp::max(v126.clone(), 0), Some(std::cmp::min(v0.clone(), 2))), r5(v2, v138, v128) if let Some(v130) = v138.clone(), if (v1.clone() < 5);
-      r5((v1.clone() + 1), Some(0), 2) <-- r1(v135, v136) if (v135.clone() == 2) if let Some(v0) = v136.clone(), r5(v125, v137, v1), if (v1.clone() != 5), let v126 = std::cmp::min(std::cmp::max(v125.clone(), 2), 6), agg () = not() in r1(std::cmp::max(v126.clone(), 0), Some(std::cmp::min(v0.clone(), 2))), r5(v2, v138, v128) if let Some(v130) = v138.clone(), if (v1.clone() < 5);
-      r6(std::cmp::min(std::cmp::min(v2.clone(), 3), 6), std::cmp::min(std::cmp::min(v2.clone(), 3), 6)) <-- r1(v139, v140) if (v139.clone() == 2) if let Some(v0) = v140.clone(), r5(v125, v141, v1), if (v1.clone() != 5), let v126 = std::cmp::min(std::cmp::max(v125.clone(), 2), 6), agg () = not() in r1(std::cmp::max(v126.clone(), 0), Some(std::cmp::min(v0.clone(), 2))), r1(v2, v142) if let Some(v128) = v142.clone(), if ((v0.clone() + v0.clone()) != v128.clone()), if (v1.clone() < 5);
-      r5((v1.clone() + 1), Some(0), 2) <-- r1(v139, v140) if (v139.clone() == 2) if let Some(v0) = v140.clone(), r5(v125, v141, v1), if (v1.clone() != 5), let v126 = std::cmp::min(std::cmp::max(v125.clone(), 2), 6), agg () = not() in r1(std::cmp::max(v126.clone(), 0), Some(std::cmp::min(v0.clone(), 2))), r1(v2, v142) if let Some(v128) = v142.clone(), if ((v0.clone() + v0.clone()) != v128.clone()), if (v1.clone() < 5);
-      r6(std::cmp::min(std::cmp::min(v2.clone(), 3), 6), std::cmp::min(std::cmp::min(v2.clone(), 3), 6)) <-- r1(v143, v144) if (v143.clone() == 2) if let Some(v0) = v144.clone(), r5(v1, v145, v125) if let Some(v127) = v145.clone(), r5(v128, v146, v2), if (v2.clone() != 5), let v129 = std::cmp::min(std::cmp::max(v128.clone(), 2), 6), agg () = not() in r1(std::cmp::max(v129.clone(), 0), Some((v0.clone() + v0.clone()))), if (v1.clone() < 5);
-      r5((v1.clone() + 1), Some(0), 2) <-- r1(v143, v144) if (v143.clone() == 2) if let Some(v0) = v144.clone(), r5(v1, v145, v125) if let Some(v127) = v145.clone(), r5(v128, v146, v2), if (v2.clone() != 5), let v129 = std::cmp::min(std::cmp::max(v128.clone(), 2), 6), agg () = not() in r1(std::cmp::max(v129.clone(), 0), Some((v0.clone() + v0.clone()))), if (v1.clone() < 5);
-      r6(std::cmp::min(std::cmp::min(v2.clone(), 3), 6), std::cmp::min(std::cmp::min(v2.clone(), 3), 6)) <-- r1(v147, v148) if (v147.clone() == 2) if let Some(v0) = v148.clone(), r5(v1, v149, v125) if let Some(v127) = v149.clone(), r5(v2, v150, v128) if let Some(v130) = v150.clone(), if (v1.clone() < 5);
-      r5((v1.clone() + 1), Some(0), 2) <-- r1(v147, v148) if (v147.clone() == 2) if let Some(v0) = v148.clone(), r5(v1, v149, v125) if let Some(v127) = v149.clone(), r5(v2, v150, v128) if let Some(v130) = v150.clone(), if (v1.clone() < 5);
-      r6(std::cmp::min(std::cmp::min(v2.clone(), 3), 6), std::cmp::min(std::cmp::min(v2.clone(), 3), 6)) <-- r1(v151, v152) if (v151.clone() == 2) if let Some(v0) = v152.clone(), r5(v1, v153, v125) if let Some(v127) = v153.clone(), r1(v2, v154) if let Some(v128) = v154.clone(), if ((v0.clone() + v0.clone()) != v128.clone()), if (v1.clone() < 5);
-      r5((v1.clone() + 1), Some(0), 2) <-- r1(v151, v152) if (v151.clone() == 2) if let Some(v0) = v152.clone(), r5(v1, v153, v125) if let Some(v127) = v153.clone(), r1(v2, v154) if let Some(v128) = v154.clone(), if ((v0.clone() + v0.clone()) != v128.clone()), if (v1.clone() < 5);
-      r6(std::cmp::min(std::cmp::min(v2.clone(), 3), 6), std::cmp::min(std::cmp::min(v2.clone(), 3), 6)) <-- r1(v155, v156) if (v155.clone() == 2) if let Some(v0) = v156.clone(), r1(v1, v157) if let Some(v125) = v157.clone(), if (std::cmp::min(v0.clone(), 2) != v125.clone()), r5(v128, v158, v2), if (v2.clone() != 5), let v129 = std::cmp::min(std::cmp::max(v128.clone(), 2), 6), agg () = not() in r1(std::cmp::max(v129.clone(), 0), Some((v0.clone() + v0.clone()))), if (v1.clone() < 5);
-      r5((v1.clone() + 1), Some(0), 2) <-- r1(v155, v156) if (v155.clone() == 2) if let Some(v0) = v156.clone(), r1(v1, v157) if let Some(v125) = v157.clone(), if (std::cmp::min(v0.clone(), 2) != v125.clone()), r5(v128, v158, v2), if (v2.clone() != 5), let v129 = std::cmp::min(std::cmp::max(v128.clone(), 2), 6), agg () = not() in r1(std::cmp::max(v129.clone(), 0), Some((v0.clone() + v0.clone()))), if (v1.clone() < 5);
-      r6(std::cmp::min(std::cmp::min(v2.clone(), 3), 6), std::cmp::min(std::cmp::min(v2.clone(), 3), 6)) <-- r1(v159, v160) if (v159.clone() == 2) if let Some(v0) = v160.clone(), r1(v1, v161) if let Some(v125) = v161.clone(), if (std::cmp::min(v0.clone(), 2) != v125.clone()), r5(v2, v162, v128) if let Some(v130) = v162.clone(), if (v1.clone() < 5);
-      r5((v1.clone() + 1), Some(0), 2) <-- r1(v159, v160) if (v159.clone() == 2) if let Some(v0) = v160.clone(), r1(v1, v161) if let Some(v125) = v161.clone(), if (std::cmp::min(v0.clone(), 2) != v125.clone()), r5(v2, v162, v128) if let Some(v130) = v162.clone(), if (v1.clone() < 5);
-      r6(std::cmp::min(std::cmp::min(v2.clone(), 3), 6), std::cmp::min(std::cmp::min(v2.clone(), 3), 6)) <-- r1(v163, v164) if (v163.clone() == 2) if let Some(v0) = v164.clone(), r1(v1, v165) if let Some(v125) = v165.clone(), if (std::cmp::min(v0.clone(), 2) != v125.clone()), r1(v2, v166) if let Some(v128) = v166.clone(), if ((v0.clone() + v0.clone()) != v128.clone()), if (v1.clone() < 5);
-      r5((v1.clone() + 1), Some(0), 2) <-- r1(v163, v164) if (v163.clone() == 2) if let Some(v0) = v164.clone(), r1(v1, v165) if let Some(v125) = v165.clone(), if (std::cmp::min(v0.clone(), 2) != v125.clone()), r1(v2, v166) if let Some(v128) = v166.clone(), if ((v0.clone() + v0.clone()) != v128.clone()), if (v1.clone() < 5);
-      r7(v0, Some(v1.clone())) <-- r0(v172, v0) if (v172.clone() == 1) if (v0.clone() != 0) let v1 = std::cmp::min(std::cmp::min(v0.clone(), 1), 6), r1(v173, v174) if (v173.clone() == v1.clone()), r0(v167, v175) if (v175.clone() == v1.clone()), r2(v168), r5(v169, v176, v177) if (v177.clone() == v1.clone()), if (v1.clone() != 5), let v170 = std::cmp::min(std::cmp::max(v169.clone(), 2), 6), agg () = not() in r1(std::cmp::max(v170.clone(), 0), Some(std::cmp::max(v1.clone(), 0)));
-      r7(v0, Some(v1.clone())) <-- r0(v178, v0) if (v178.clone() == 1) if (v0.clone() != 0) let v1 = std::cmp::min(std::cmp::min(v0.clone(), 1), 6), r1(v179, v180) if (v179.clone() == v1.clone()), r0(v167, v181) if (v181.clone() == v1.clone()), r2(v168), r5(v182, v183, v169) if (v182.clone() == v1.clone()) if let Some(v171) = v183.clone();
-      r7(v0, Some(v1.clone())) <-- r0(v184, v0) if (v184.clone() == 1) if (v0.clone() != 0) let v1 = std::cmp::min(std::cmp::min(v0.clone(), 1), 6), r1(v185, v186) if (v185.clone() == v1.clone()), r0(v167, v187) if (v187.clone() == v1.clone()), r2(v168), r1(v188, v189) if (v188.clone() == v1.clone()) if let Some(v169) = v189.clone(), if (std::cmp::max(v1.clone(), 0) != v169.clone());
-      r7(v0, Some(v1.clone())) <-- r0(v190, v0) if (v190.clone() == 1) if (v0.clone() != 0) let v1 = std::cmp::min(std::cmp::min(v0.clone(), 1), 6), r3(v191, v192, v193) if (v191.clone() == v1.clone()) if (v192.clone() == std::cmp::min(v1.clone(), 2)) if (v193.clone() == v1.clone()), agg () = not() in r0(0, _), r2(v168), r5(v169, v194, v195) if (v195.clone() == v1.clone()), if (v1.clone() != 5), let v170 = std::cmp::min(std::cmp::max(v169.clone(), 2), 6), agg () = not() in r1(std::cmp::max(v170.clone(), 0), Some(std::cmp::max(v1.clone(), 0)));
-      r7(v0, Some(v1.clone())) <-- r0(v196, v0) if (v196.clone() == 1) if (v0.clone() != 0) let v1 = std::cmp::min(std::cmp::min(v0.clone(), 1), 6), r3(v197, v198, v199) if (v197.clone() == v1.clone()) if (v198.clone() == std::cmp::min(v1.clone(), 2)) if (v199.clone() == v1.clone()), agg () = not() in r0(0, _), r2(v168), r5(v200, v201, v169) if (v200.clone() == v1.clone()) if let Some(v171) = v201.clone();
-      r7(v0, Some(v1.clone())) <-- r0(v202, v0) if (v202.clone() == 1) if (v0.clone() != 0) let v1 = std::cmp::min(std::cmp::min(v0.clone(), 1), 6), r3(v203, v204, v205) if (v203.clone() == v1.clone()) if (v204.clone() == std::cmp::min(v1.clone(), 2)) if (v205.clone() == v1.clone()), agg () = not() in r0(0, _), r2(v168), r1(v206, v207) if (v206.clone() == v1.clone()) if let Some(v169) = v207.clone(), if (std::cmp::max(v1.clone(), 0) != v169.clone());
-      r4(v0) <-- r1(v0, v208) if (v208.clone() == None::<i64>);
-      r6(2, 2);
+      relation r7(i64);
+      relation r8(i64, i64, i64);
+      r6(std::cmp::min(std::cmp::max(v2.clone(), 2), 6), v0) <-- r8(v0, v101, v1) if (v101.clone() == v0.clone()) if (v1.clone() == 3) let v2 = std::cmp::min(std::cmp::min(v1.clone(), 1), 6), r4(v102, v100) if (v102.clone() == v0.clone()), r5(v103) if (v103.clone() == v100.clone());
+      r6(v0, std::cmp::min(std::cmp::max(v2.clone(), 2), 6)) <-- r8(v0, v101, v1) if (v101.clone() == v0.clone()) if (v1.clone() == 3) let v2 = std::cmp::min(std::cmp::min(v1.clone(), 1), 6), r4(v102, v100) if (v102.clone() == v0.clone()), r5(v103) if (v103.clone() == v100.clone());
+      r7(v0) <-- r5(v0), r5(v1), r5(v104) if (v104.clone() == v1.clone());
+      r6(std::cmp::min(std::cmp::max(v3.clone(), 3), 6), v0) <-- r4(v0, v1) if (v1.clone() != 5) let v2 = std::cmp::min((v0.clone() + v1.clone()), 6), r4(v4, v3), if (v4.clone() < 1), r3(v105, v108, v109) if (v108.clone() == 0) if (v109.clone() == (v105.clone() + v3.clone())), r4(v106, v107), r5(v110) if (v110.clone() == v107.clone());
+      r6(v0, std::cmp::min(std::cmp::max(v3.clone(), 3), 6)) <-- r4(v0, v1) if (v1.clone() != 5) let v2 = std::cmp::min((v0.clone() + v1.clone()), 6), r4(v4, v3), if (v4.clone() < 1), r3(v105, v108, v109) if (v108.clone() == 0) if (v109.clone() == (v105.clone() + v3.clone())), r4(v106, v107), r5(v110) if (v110.clone() == v107.clone());
+      r6(2, v1) <-- r4(v0, v1) if (v1.clone() != 5) let v2 = std::cmp::min((v0.clone() + v1.clone()), 6), r4(v4, v3), if (v4.clone() < 1), r3(v105, v108, v109) if (v108.clone() == 0) if (v109.clone() == (v105.clone() + v3.clone())), r4(v106, v107), r5(v110) if (v110.clone() == v107.clone());
+      r6(std::cmp::min(std::cmp::max(v3.clone(), 3), 6), v0) <-- r4(v0, v1) if (v1.clone() != 5) let v2 = std::cmp::min((v0.clone() + v1.clone()), 6), r0(v3, v5);
+      r6(v0, std::cmp::min(std::cmp::max(v3.clone(), 3), 6)) <-- r4(v0, v1) if (v1.clone() != 5) let v2 = std::cmp::min((v0.clone() + v1.clone()), 6), r0(v3, v5);
+      r6(2, v1) <-- r4(v0, v1) if (v1.clone() != 5) let v2 = std::cmp::min((v0.clone() + v1.clone()), 6), r0(v3, v5);
+      r5(v1) <-- r3(v111, v0, v1) if (v111.clone() == 3) if (v1.clone() != v0.clone()) let v2 = std::cmp::min(std::cmp::min(v0.clone(), 3), 6);
    }
    pub struct Inst { p: Prog, pool: Option<ascent::rayon::ThreadPool> }
    pub fn make(pool: Option<usize>) -> Box<dyn Driver> {
@@ -190,9 +163,66 @@ pub mod h8x {
          1 => { let v: Vec<(i64,Option<i64>,)> = parse_rows(rows)?; if append { self.p.r1.extend(v) } else { self.p.r1 = v } },
          2 => { let v: Vec<(i64,)> = parse_rows(rows)?; if append { self.p.r2.extend(v) } else { self.p.r2 = v } },
          3 => { let v: Vec<(i64,i64,i64,)> = parse_rows(rows)?; if append { self.p.r3.extend(v) } else { self.p.r3 = v } },
-         4 => { let v: Vec<(i64,)> = parse_rows(rows)?; if append { self.p.r4.extend(v) } else { self.p.r4 = v } },
-         5 => { let v: Vec<(i64,Option<i64>,i64,)> = parse_rows(rows)?; if append { self.p.r5.extend(v) } else { self.p.r5 = v } },
+         4 => { let v: Vec<(i64,i64,)> = parse_rows(rows)?; if append { self.p.r4.extend(v) } else { self.p.r4 = v } },
+         5 => { let v: Vec<(i64,)> = parse_rows(rows)?; if append { self.p.r5.extend(v) } else { self.p.r5 = v } },
          6 => { let v: Vec<(i64,i64,)> = parse_rows(rows)?; if append { self.p.r6.extend(v) } else { self.p.r6 = v } },
+         7 => { let v: Vec<(i64,)> = parse_rows(rows)?; if append { self.p.r7.extend(v) } else { self.p.r7 = v } },
+         8 => { let v: Vec<(i64,i64,i64,)> = parse_rows(rows)?; if append { self.p.r8.extend(v) } else { self.p.r8 = v } },
+            _ => return None,
+         }
+         Some(())
+      }
+      fn run(&mut self) { match &self.pool { Some(pl) => { let p = &mut self.p; pl.install(|| p.run()) }, None => self.p.run() } }
+      fn run_here(&mut self) { self.p.run() }
+      fn run_timeout(&mut self, k: usize) -> Option<bool> { let _ = k; None }
+      fn dump(&self) -> String { vec![dump_rel(0, self.p.r0.iter().map(Row::render).collect()), dump_rel(1, self.p.r1.iter().map(Row::render).collect()), dump_rel(2, self.p.r2.iter().map(Row::render).collect()), dump_rel(3, self.p.r3.iter().map(Row::render).collect()), dump_rel(4, self.p.r4.iter().map(Row::render).collect()), dump_rel(5, self.p.r5.iter().map(Row::render).collect()), dump_rel(6, self.p.r6.iter().map(Row::render).collect()), dump_rel(7, self.p.r7.iter().map(Row::render).collect()), dump_rel(8, self.p.r8.iter().map(Row::render).collect())].join(" | ") }
+      fn iters(&self) -> String { format!("iters {}", self.p.scc_iters.iter().map(|x| x.to_string()).collect::<Vec<_>>().join(" ")) }
+   }
+}
+
+#[allow(unused, non_snake_case, clippy::all)]
+pub mod h12x {
+   use ascent::*;
+   use ascent::aggregators::*;
+   use ascent::lattice::{Dual, set::Set};
+   use crate::common::*;
+   ascent! {
+      pub struct Prog;
+      relation r0(i64, i64);
+      relation r1(i64, Option<i64>);
+      relation r2(i64);
+      relation r3(i64, i64, i64);
+      relation r4(i64, i64);
+      relation r5(i64, i64);
+      relation r6(i64, Option<i64>);
+      relation r7(i64, Option<i64>);
+      r7(std::cmp::min((v3.clone() + 0), 6), Some(std::cmp::min((v3.clone() + 0), 6))) <-- r3(v0, v1, v102) if (v102.clone() == v0.clone()), r5(v2, v103) if (v103.clone() == v0.clone()), r4(v104, v105) if (v104.clone() == v2.clone()), r1(v100, v106) if (v106.clone() == None::<i64>), r2(v107) if (v107.clone() == std::cmp::max(v100.clone(), 0)), if (v100.clone() == 4), if (v0.clone() <= v100.clone()), r5(v108, v3) if (v108.clone() == v0.clone()), r4(v109, v110) if (v109.clone() == v0.clone()), r1(v101, v111) if (v111.clone() == None::<i64>), r2(v112) if (v112.clone() == std::cmp::max(v101.clone(), 0)), if (v101.clone() == 4), if (v3.clone() <= v101.clone());
+      r7(std::cmp::min((v3.clone() + 0), 6), Some(std::cmp::min((v3.clone() + 0), 6))) <-- r3(v0, v1, v113) if (v113.clone() == v0.clone()), r6(v2, v114), r5(v115, v3) if (v115.clone() == v0.clone()), r4(v116, v117) if (v116.clone() == v0.clone()), r1(v101, v118) if (v118.clone() == None::<i64>), r2(v119) if (v119.clone() == std::cmp::max(v101.clone(), 0)), if (v101.clone() == 4), if (v3.clone() <= v101.clone());
+      r7(std::cmp::min(std::cmp::min(v0.clone(), 2), 6), Some(std::cmp::min(std::cmp::min(v0.clone(), 2), 6))) <-- r4(v0, v120) if (v120.clone() == std::cmp::min(v0.clone(), 2)), r1(v1, v121) if (v121.clone() == None::<i64>), r2(v122) if (v122.clone() == std::cmp::max(v1.clone(), 0)), if (v1.clone() == 4);
+      r7(v1, None::<i64>) <-- r0(v0, v124) if (v124.clone() == std::cmp::max(v0.clone(), 2)), r5(v1, v3), r4(v125, v126) if (v125.clone() == v1.clone()), r1(v123, v127) if (v127.clone() == None::<i64>), r2(v128) if (v128.clone() == std::cmp::max(v123.clone(), 0)), if (v123.clone() == 4), if (v3.clone() <= v123.clone());
+      r7(v1, None::<i64>) <-- r0(v0, v129) if (v129.clone() == std::cmp::max(v0.clone(), 2)), r4(v130, v1) if (v130.clone() == v0.clone());
+      r6(3, Some(v0.clone())) <-- r3(v0, v1, v131) if (v131.clone() == 1), r1(v132, v133) if (v132.clone() == v1.clone()) if (v133.clone() == None::<i64>), r2(v134) if (v134.clone() == std::cmp::max(v1.clone(), 0)), if (v1.clone() == 4);
+      r7(std::cmp::min(std::cmp::max(v1.clone(), 0), 6), Some(std::cmp::min(std::cmp::max(v1.clone(), 0), 6))) <-- r4(v137, v138) if (v137.clone() == 3), r5(v0, v1), r4(v139, v140) if (v139.clone() == v0.clone()), r1(v135, v141) if (v141.clone() == None::<i64>), r2(v142) if (v142.clone() == std::cmp::max(v135.clone(), 0)), if (v135.clone() == 4), if (v1.clone() <= v135.clone()), r5(v143, v2) if (v143.clone() == v1.clone()), r4(v144, v145) if (v144.clone() == v1.clone()), r1(v136, v146) if (v146.clone() == None::<i64>), r2(v147) if (v147.clone() == std::cmp::max(v136.clone(), 0)), if (v136.clone() == 4), if (v2.clone() <= v136.clone());
+      r6(v0, Some(v0.clone())) <-- r1(v0, v148) if (v148.clone() == None::<i64>), r2(v149) if (v149.clone() == std::cmp::max(v0.clone(), 0)), if (v0.clone() == 4);
+      r5(v0, v0) <-- r4(v0, v150) if (v150.clone() == 0);
+      r7(3, Some(3));
+   }
+   pub struct Inst { p: Prog, pool: Option<ascent::rayon::ThreadPool> }
+   pub fn make(pool: Option<usize>) -> Box<dyn Driver> {
+      let pool = pool.map(|n| ascent::rayon::ThreadPoolBuilder::new().num_threads(n).build().unwrap());
+      let p = match &pool { Some(pl) => pl.install(|| Default::default()), None => Default::default() };
+      Box::new(Inst { p, pool })
+   }
+   impl Driver for Inst {
+      fn load(&mut self, rel: usize, rows: &[Sexp], append: bool) -> Option<()> {
+         match rel {
+         0 => { let v: Vec<(i64,i64,)> = parse_rows(rows)?; if append { self.p.r0.extend(v) } else { self.p.r0 = v } },
+         1 => { let v: Vec<(i64,Option<i64>,)> = parse_rows(rows)?; if append { self.p.r1.extend(v) } else { self.p.r1 = v } },
+         2 => { let v: Vec<(i64,)> = parse_rows(rows)?; if append { self.p.r2.extend(v) } else { self.p.r2 = v } },
+         3 => { let v: Vec<(i64,i64,i64,)> = parse_rows(rows)?; if append { self.p.r3.extend(v) } else { self.p.r3 = v } },
+         4 => { let v: Vec<(i64,i64,)> = parse_rows(rows)?; if append { self.p.r4.extend(v) } else { self.p.r4 = v } },
+         5 => { let v: Vec<(i64,i64,)> = parse_rows(rows)?; if append { self.p.r5.extend(v) } else { self.p.r5 = v } },
+         6 => { let v: Vec<(i64,Option<i64>,)> = parse_rows(rows)?; if append { self.p.r6.extend(v) } else { self.p.r6 = v } },
          7 => { let v: Vec<(i64,Option<i64>,)> = parse_rows(rows)?; if append { self.p.r7.extend(v) } else { self.p.r7 = v } },
             _ => return None,
          }
@@ -207,7 +237,7 @@ pub mod h8x {
 }
 
 #[allow(unused, non_snake_case, clippy::all)]
-pub mod a0x {
+pub mod a2x {
    use ascent::*;
    use ascent::aggregators::*;
    use ascent::lattice::{Dual, set::Set};
@@ -218,7 +248,7 @@ pub mod a0x {
       relation r1(i64);
       relation r2(i64, i64);
       relation r3(i64);
-      r2(v0, v1) <-- r1(v0), r0(v100, v1) if (3 < v100.clone());
+      r2(v0, v1) <-- r1(v0), r0(v100, v1), if (0 < v100.clone());
       r3(v0) <-- r2(v0, v101);
    }
    pub struct Inst { p: Prog, pool: Option<ascent::rayon::ThreadPool> }
@@ -247,7 +277,7 @@ pub mod a0x {
 }
 
 #[allow(unused, non_snake_case, clippy::all)]
-pub mod e0x {
+pub mod e2x {
    use ascent::*;
    use ascent::aggregators::*;
    use ascent::lattice::{Dual, set::Set};
@@ -258,7 +288,7 @@ pub mod e0x {
       relation r1(i64);
       relation r2(i64, i64);
       relation r3(i64);
-      r2(v0, v1) <-- r1(v0), r0(v100, v1), if ((v100.clone() * (v0.clone() + 2)) < 5);
+      r2(v0, v1) <-- r1(v0), r0(v100, v1), if ((v0.clone() + 2) < 2);
       r3(v0) <-- r2(v0, v101);
    }
    pub struct Inst { p: Prog, pool: Option<ascent::rayon::ThreadPool> }
@@ -287,47 +317,7 @@ pub mod e0x {
 }
 
 #[allow(unused, non_snake_case, clippy::all)]
-pub mod e4x {
-   use ascent::*;
-   use ascent::aggregators::*;
-   use ascent::lattice::{Dual, set::Set};
-   use crate::common::*;
-   ascent! {
-      pub struct Prog;
-      relation r0(i64, i64);
-      relation r1(i64);
-      relation r2(i64, i64);
-      relation r3(i64);
-      r2(v0, v1) <-- r1(v0), r0(v100, v1), if (((v0.clone() + 1) * v100.clone()) < 7);
-      r3(v0) <-- r2(v0, v101);
-   }
-   pub struct Inst { p: Prog, pool: Option<ascent::rayon::ThreadPool> }
-   pub fn make(pool: Option<usize>) -> Box<dyn Driver> {
-      let pool = pool.map(|n| ascent::rayon::ThreadPoolBuilder::new().num_threads(n).build().unwrap());
-      let p = match &pool { Some(pl) => pl.install(|| Default::default()), None => Default::default() };
-      Box::new(Inst { p, pool })
-   }
-   impl Driver for Inst {
-      fn load(&mut self, rel: usize, rows: &[Sexp], append: bool) -> Option<()> {
-         match rel {
-         0 => { let v: Vec<(i64,i64,)> = parse_rows(rows)?; if append { self.p.r0.extend(v) } else { self.p.r0 = v } },
-         1 => { let v: Vec<(i64,)> = parse_rows(rows)?; if append { self.p.r1.extend(v) } else { self.p.r1 = v } },
-         2 => { let v: Vec<(i64,i64,)> = parse_rows(rows)?; if append { self.p.r2.extend(v) } else { self.p.r2 = v } },
-         3 => { let v: Vec<(i64,)> = parse_rows(rows)?; if append { self.p.r3.extend(v) } else { self.p.r3 = v } },
-            _ => return None,
-         }
-         Some(())
-      }
-      fn run(&mut self) { match &self.pool { Some(pl) => { let p = &mut self.p; pl.install(|| p.run()) }, None => self.p.run() } }
-      fn run_here(&mut self) { self.p.run() }
-      fn run_timeout(&mut self, k: usize) -> Option<bool> { let _ = k; None }
-      fn dump(&self) -> String { vec![dump_rel(0, self.p.r0.iter().map(Row::render).collect()), dump_rel(1, self.p.r1.iter().map(Row::render).collect()), dump_rel(2, self.p.r2.iter().map(Row::render).collect()), dump_rel(3, self.p.r3.iter().map(Row::render).collect())].join(" | ") }
-      fn iters(&self) -> String { format!("iters {}", self.p.scc_iters.iter().map(|x| x.to_string()).collect::<Vec<_>>().join(" ")) }
-   }
-}
-
-#[allow(unused, non_snake_case, clippy::all)]
-pub mod o3x {
+pub mod o1x {
    use ascent::*;
    use ascent::aggregators::*;
    use ascent::lattice::{Dual, set::Set};
@@ -367,5 +357,5 @@ pub mod o3x {
 }
 
 fn main() {
-   common::main_loop(&[("h0x", h0x::make as common::Factory), ("h4x", h4x::make as common::Factory), ("h8x", h8x::make as common::Factory), ("a0x", a0x::make as common::Factory), ("e0x", e0x::make as common::Factory), ("e4x", e4x::make as common::Factory), ("o3x", o3x::make as common::Factory)]);
+   common::main_loop(&[("h0x", h0x::make as common::Factory), ("h4x", h4x::make as common::Factory), ("h8x", h8x::make as common::Factory), ("h12x", h12x::make as common::Factory), ("a2x", a2x::make as common::Factory), ("e2x", e2x::make as common::Factory), ("o1x", o1x::make as common::Factory)]);
 }
